@@ -20,7 +20,7 @@ ID = "C10"
 TECHNIQUE = "bounded-exhaustive grid enumeration of symmetric PSD inputs (size x spectrum x basis x scale x root x epsilon x dtype x solver) on the real matrix_inverse_root against a float64 / closed-form spectral oracle with the error bound of the statement"
 RULE = (
     "n in {1,2,3,4,5,8,16[,32,64,128 thorough]} x spectra {equal, geometric(cond 10^k), one_tiny, clustered, rankdef, linear} x bases {identity, perm, householder, givens, dct} x scale {1e-6,1,1e6} x "
-    "roots {1,2,4,8,3/2,4/3,8/3} x eps {1e-2,1e-6,1e-12}*scale x dtype {f32,f64} x solver {eigen, eigen+stability, newton(1e-6), newton(1e-10), higher-order(2), higher-order(3)}; "
+    "roots {1,2,4,8,3,6,3/2,4/3,8/3[,5,7 for n <= 3]} x eps {1e-2,1e-6,1e-12}*scale x dtype {f32,f64} x solver {eigen, eigen+stability, newton(1e-6), newton(1e-10), higher-order(2), higher-order(3)}; "
     "complete product for n <= 8 (<= 5 quick), larger n with reduced axes. state = the input tuple; non-trivial = condition number > 10"
 )
 ASSUMPTIONS = [
@@ -39,7 +39,9 @@ EPS_REL = {"f32": [1e2, 1.0, 1e-2, 1e-4, 1e-6], "f64": [1e2, 1.0, 1e-2, 1e-6, 1e
 # (eigendecomposition) solvers are exercised there, against the closed form of the construction with the true kappa
 EPS_BELOW = {"f32": [1e-12, 1e-18], "f64": [1e-24]}
 SOLVERS = ["eigen", "eigen_stab", "newton6", "newton10", "ho2", "ho3"]
-ROOTS = [Fraction(1), Fraction(2), Fraction(4), Fraction(8), Fraction(3, 2), Fraction(4, 3), Fraction(8, 3)]
+ROOTS = [Fraction(1), Fraction(2), Fraction(4), Fraction(8), Fraction(3, 2), Fraction(4, 3), Fraction(8, 3), Fraction(3), Fraction(6)]
+# further integer roots that are not powers of two (order-3 tensors use 6; inv_root_override may be anything): small n only
+ODD_ROOTS = [Fraction(5), Fraction(7)]  # p <= 8: beyond that the float64 evaluation of X^p itself loses the residual bound (measured: 12 -> 2.4x, 16 -> 40x)
 # what Fraction(root / exponent_multiplier) produces for multipliers that are not dyadic: huge numerator/denominator.
 # Only the direct solvers are run on these (the coupled iterations would need matrix powers with p ~ 1e15).
 BIG_ROOTS = [Fraction(2 / 1.37), Fraction(4 / 1.821), Fraction(2 / 0.7)]
@@ -134,7 +136,7 @@ def check_input(torch, c, stats):
     eps = c["eps_rel"] * c["scale"]
     below = bool(c.get("below"))
     A_before = A.clone()
-    for r in ROOTS + (BIG_ROOTS if (c["n"] <= 5 and not below) else []):
+    for r in ROOTS + (ODD_ROOTS if c["n"] <= 3 else []) + (BIG_ROOTS if (c["n"] <= 5 and not below) else []):
         Xs, w = oracle(A, Q, lam, eps, r, dtype, closed=below)
         kappa = float(w.max() / w.min())
         nx = np.linalg.norm(Xs)
